@@ -78,8 +78,8 @@ def _opts(entry):
         return st.fixed_dictionaries({"num_samples": st.just(200), "num_attempts": st.sampled_from([1, 3]), "rbf_type": st.sampled_from(["gaussian", "c2-matern"])})
     if entry == "drt-mrq-fit":
         return st.fixed_dictionaries({"cdc": st.sampled_from(["R(RQ)", "R(RQ)(RC)"]), "num_per_decade": st.just(20)})
-    return st.fixed_dictionaries({"cdc": st.sampled_from(["R(RC)", "R(RQ)", "R(RC)(RQ)"]), "method": st.sampled_from(["leastsq", "least_squares", "nelder", "powell", "lbfgsb", "bfgs", ["leastsq", "least_squares"], ["nelder", "lbfgsb"]]),
-                                  "weight": st.sampled_from(["boukamp", "modulus", ["unity", "proportional"]]), "max_nfev": st.sampled_from([20, 200])})
+    return st.fixed_dictionaries({"cdc": st.sampled_from(["R(RC)", "R(RQ)", "R(RC)(RQ)"]), "method": st.sampled_from(["leastsq", "least_squares", "nelder", "powell", "lbfgsb", "bfgs", "tnc", "cg", "slsqp", ["leastsq", "least_squares"], ["nelder", "lbfgsb"]]),
+                                  "weight": st.sampled_from(["boukamp", "modulus", ["unity", "proportional"]]), "max_nfev": st.sampled_from([20, 200, 1000, -1])})  # aborted early, aborted late, converged, unlimited
 
 
 @st.composite
